@@ -32,6 +32,13 @@ def run(ctx):
     r05_3(ctx, rep, roles)
     r05_4(ctx, rep, roles)
     r05_5(ctx, rep, roles)
+    # "the owner is the most advanced copy" needs (a) every local write to publish a version <= the owner's max_version
+    # (seed R2-C05-1) and (b) no receive path to the raw setters that bypasses admission (seed R2-C05-2)
+    from . import c04
+    c04.r04_1(ctx, rep, roles)
+    ctx.report.rules[-1].id = "R05.7(R04.1)"
+    c04.r04_3(ctx, rep, roles)
+    ctx.report.rules[-1].id = "R05.8(R04.3)"
 
 
 PUB_CHITCHAT_MUT = {"self_node_state": "own copy only", "catchup": "documented catch-up entry (C18)"}
